@@ -20,13 +20,13 @@ func VerifC02_a5_coll() {
 	case 1:
 		p.Labels = []string{}
 	case 2:
-		p.Labels = []string{nondetStringUpTo("l0", 1)}
+		p.Labels = []string{nondetStringUpTo("l0", deep(1))}
 	}
 	switch wk {
 	case 1:
 		p.Weights = map[string]int{}
 	case 2:
-		p.Weights = map[string]int{nondetStringUpTo("wk", 1): nondetInt("wv")}
+		p.Weights = map[string]int{nondetStringUpTo("wk", deep(1)): nondetInt("wv")}
 	}
 	if nondetBool("plain-set") {
 		p.Plain = []int{nondetInt("p0")}
